@@ -25,7 +25,6 @@ import (
 	pluginfw "github.com/notaryproject/notation-plugin-framework-go/plugin"
 	"github.com/opencontainers/go-digest"
 	ocispec "github.com/opencontainers/image-spec/specs-go/v1"
-	"golang.org/x/mod/semver"
 	. "vh/kit"
 )
 
@@ -165,12 +164,12 @@ func run(a *Args) error {
 	rng := NewRng(a.Seed)
 	// run_all (C02_Struct.v) = correspondence with the model + the oracle spec_ok on well-formed inputs + the
 	// contract-free oracle (acceptance rule, what is performed, what the plugin is asked, truthful results) on ALL inputs
-	prelude := "From NV Require Import Base Regex Generated C02_Levels VerifyCore C02_Model C02_Struct.\nOpen Scope string_scope.\n"
+	prelude := "From NV Require Import Base Regex Generated C02_Levels VerifyCore C02_Model C02_Struct C02_Versions.\nOpen Scope string_scope.\n"
 	w := NewCaseWriter(a, "C02", prelude, "case", "run_all")
 	w.Rule = "scenarios realised on the real verifier.Verify. Family table: every enforcement map reachable from {strict,permissive,audit} x legal overrides (24 maps, a random (level, override) representative each) x every subset of simultaneously failing native validations {trust store authenticity, identity, expiry, certificate time, revocation} (quick) resp. the full product {anchor found, load error, not anchored} x identity x expired x certificate time x revocation {ok, revoked, unknown, validator error} (thorough) x plugin situation {none, not installed, version too low, no verification capability, trusted-identity, revocation, both} x verdicts {success, failure, missing} x critical attributes {none, processed, unprocessed}; the cells that differ only in the map form a group on which monotonicity of acceptance is checked directly. Family random: malformed plugin headers, blank names, missing manager, metadata error, invalid versions, capability orders with foreign capabilities, plugin errors, nil verdict entries, non-critical attributes, integer-labelled critical attributes (COSE), corrupted envelopes, both envelope formats. Family versions: (plugin version, demanded minimum) pairs around SemVer precedence. Family corpus: the fixed defects and the known finding. Family illegal: level/override combinations GetVerificationLevel must refuse. Family duplicates: a verification capability declared several times (outside wf_sc; judged by the contract-free oracle spec_all). Family revshape: validator answers with a result too few / too many / a nil entry (fix d78db00) under enforce, log, skip and with a revocation plugin. non-trivial = at least one failed validation or a plugin header / extended attribute present; distinct = distinct scenario tuples"
 	w.Assumptions = []string{
 		"plugin metadata lists each verification capability at most once (wf_sc): needed only for the clause 'each result type at most once, in the fixed order'; the acceptance rule, monotonicity, what is performed / asked and the truthfulness of the results are proved and checked without it (families random and duplicates)",
-		"semver validity/order of plugin versions are oracle facts computed with golang.org/x/mod/semver on a fixed version table (semantics proved in C20)",
+		"validity and order of the plugin version / demanded minimum are computed inside Coq from the version strings by C20's model of internal/semver.IsValid and x/mod/semver.Compare (C02_Versions.plugin_of, minver_valid_of); family versions holds the pairs around SemVer precedence",
 		"native validation facts (authentic, identity, expiry, certificate time, revocation) are realised with real certificates, stores and validators; their own semantics are C03/C04/C05/C06",
 		"the level seen by processSignature is the one GetVerificationLevel returns for the statement (model: C02_Levels.get_level over Generated.v)",
 	}
@@ -582,17 +581,27 @@ func run(a *Args) error {
 			before := snap()
 			var outcome *notation.VerificationOutcome
 			var verr error
-			switch s.Entry {
-			case "blob":
-				bv := v.(notation.BlobVerifier)
-				outcome, verr = bv.VerifyBlob(context.Background(), func(digest.Algorithm) (ocispec.Descriptor, error) { return descArg, nil }, env,
-					notation.BlobVerifierVerifyOptions{SignatureMediaType: s.Format, PluginConfig: rg.config, TrustPolicyName: "p"})
-			case "oci2":
-				vopts.ArtifactReference = otherRef
-				outcome, verr = v.Verify(context.Background(), descArg, env, vopts)
-			default:
-				outcome, verr = v.Verify(context.Background(), descArg, env, vopts)
-			}
+			func() {
+				// a panic inside the library is a violation of its own (recorded with the case), not a crash of the driver
+				defer func() {
+					if r := recover(); r != nil {
+						outcome, verr = nil, fmt.Errorf("panic: %v", r)
+						w.ImplViolation(my, fmt.Sprintf("verification panicked: %v", r), s, "")
+						w.Count("panic", "verify")
+					}
+				}()
+				switch s.Entry {
+				case "blob":
+					bv := v.(notation.BlobVerifier)
+					outcome, verr = bv.VerifyBlob(context.Background(), func(digest.Algorithm) (ocispec.Descriptor, error) { return descArg, nil }, env,
+						notation.BlobVerifierVerifyOptions{SignatureMediaType: s.Format, PluginConfig: rg.config, TrustPolicyName: "p"})
+				case "oci2":
+					vopts.ArtifactReference = otherRef
+					outcome, verr = v.Verify(context.Background(), descArg, env, vopts)
+				default:
+					outcome, verr = v.Verify(context.Background(), descArg, env, vopts)
+				}
+			}()
 			after := snap()
 			for i := 0; i+1 < len(before); i += 2 {
 				if before[i+1] != after[i+1] {
@@ -679,16 +688,14 @@ func run(a *Args) error {
 		case 2:
 			pm = "PMMetaErr"
 		case 3:
-			valid := validSemver[s.Version]
-			ge := true
-			if s.MinVer.State == aStr {
-				ge = semver.Compare("v"+s.Version, "v"+s.MinVer.Val) != -1
-			}
+			// the version facts (IsValid(version), version >= demanded minimum) are NOT supplied by the
+			// harness: C02_Versions.plugin_of computes them inside Coq from the strings, with the model of
+			// internal/semver and x/mod/semver.Compare (C20_Semver.v)
 			var cs []string
 			for _, c := range s.Caps {
 				cs = append(cs, capCoq(c))
 			}
-			pm = CApp("PMPlugin", CBool(valid), CBool(ge), CList(cs))
+			pm = CApp("plugin_of", CStr(s.Version), s.MinVer.coq(), CList(cs))
 		}
 		if s.PM >= 1 && s.Plugin.State != aStr {
 			// the manager is present but never consulted for a name; any pm value
@@ -711,7 +718,7 @@ func run(a *Args) error {
 			}
 			presp = CApp("PResp", CStrList(s.Processed), verd(s.TI), verd(s.Rev))
 		}
-		minValid := s.MinVer.State == aStr && validSemver[s.MinVer.Val]
+		minValid := CApp("minver_valid_of", s.MinVer.coq())
 		type kv struct {
 			k string
 			c bool
@@ -728,7 +735,7 @@ func run(a *Args) error {
 		for _, o := range others {
 			otherT = append(otherT, CPair(CStr(o.k), CBool(o.c)))
 		}
-		sc := CApp("mk_sc", CBool(s.Integrity), s.Plugin.coq(), s.MinVer.coq(), CBool(minValid), CList(otherT), CBool(s.NonString),
+		sc := CApp("mk_sc", CBool(s.Integrity), s.Plugin.coq(), s.MinVer.coq(), minValid, CList(otherT), CBool(s.NonString),
 			CN(int64(s.Auth)), CBool(s.Identity), CBool(s.Expired), CBool(s.TsOK), CBool(s.RevMode == 0), pm, presp)
 		in := CApp("mk_input", CStr(s.Level), CMap(s.Override), sc)
 		term := CApp("mk_case", CN(my), in, obs)
@@ -1403,12 +1410,6 @@ func run(a *Args) error {
 	w.Set("monotonicity_violations_on_implementation", monoViol)
 	return w.Close()
 }
-
-// validity of the version strings used by this driver under SemVer 2.0 (a fixed
-// table: the oracle is the specification, not the code under test)
-var validSemver = map[string]bool{"1.2.0+build.5": true, "1.2.0-alpha": true, "1.2.0-alpha.1": true, "1.2.0-rc.10": true, "1.2.0-rc.9": true,
-	"01.2.0": false, "01.0.0": false, "": false, "1.2.0": true, "0.9.0": true, "2.0.0-rc.1": true, "v1": false, "1.2": false,
-	"1.0.0": true, "1.10.0": true, "2.0.0": true, "1.0": false, "  ": false, "x": false}
 
 func vtypeCoq(t trustpolicy.ValidationType) string {
 	switch t {
